@@ -491,6 +491,8 @@ class Emitter:
             return self.tr(e[1], k)
         if t == 'blockexpr':
             return self.block(e[1], k)
+        if t == 'index' and 'index' in self.cfg:
+            return self.tr(e[1], lambda a: self.tr(e[2], lambda i: self.cfg['index'](self, a, i, k)))
         if t == 'tuple':
             return self.tr_list(e[1], lambda ts: k('(' + ', '.join(ts) + ')'))
         if t == 'range':
